@@ -38,14 +38,31 @@ type rawEv struct {
 	src   uint32
 	extra int
 	p     []byte
+	mac   []byte // Ethernet source of the frame (optional 5th field; nil: chaddr / the router, as rawFrame chooses)
 }
 
 func (e rawEv) String() string {
+	if e.mac != nil {
+		return fmt.Sprintf("%s:%d:%d:%s:%s", e.dir, e.src, e.extra, core.Hex(e.p), core.Hex(e.mac))
+	}
 	return fmt.Sprintf("%s:%d:%d:%s", e.dir, e.src, e.extra, core.Hex(e.p))
 }
 
 func parseRawEv(s string) (rawEv, bool) {
 	f := strings.Split(s, ":")
+	var mac []byte
+	if len(f) == 5 {
+		if len(f[4]) != 12 {
+			return rawEv{}, false
+		}
+		for _, ch := range f[4] {
+			if !(ch >= '0' && ch <= '9' || ch >= 'a' && ch <= 'f') {
+				return rawEv{}, false
+			}
+		}
+		mac = core.UnHex(f[4])
+		f = f[:4]
+	}
 	if len(f) != 4 || (f[0] != "c" && f[0] != "s") {
 		return rawEv{}, false
 	}
@@ -66,7 +83,7 @@ func parseRawEv(s string) (rawEv, bool) {
 	if len(p) > 1400 {
 		return rawEv{}, false
 	}
-	return rawEv{f[0], uint32(src), extra, p}, true
+	return rawEv{f[0], uint32(src), extra, p, mac}, true
 }
 
 // rawFrame: Ethernet/IPv4/UDP around the payload in a buffer of exactly 42+len(p)+extra bytes; the returned
@@ -82,6 +99,9 @@ func rawFrame(e rawEv) (frame, buf []byte) {
 	sport, dport := uint16(68), uint16(67)
 	if e.dir == "s" {
 		src, sport, dport = sess.RouterMAC, 67, 68
+	}
+	if e.mac != nil {
+		src = e.mac
 	}
 	copy(b[6:12], src)
 	b[12], b[13] = 0x08, 0x00
@@ -194,6 +214,8 @@ type rawStep struct {
 	replies []*c11.Reply
 	why     string
 	ord     string // option codes of the reply in wire order (hex; "-" without a reply): the map iteration order the model is run with
+	dord    string // the same for the forged DECLINE of the event ("-": none)
+	mac     []byte // Ethernet source of the request frame as received
 }
 
 // runRawEv runs one event on the world.
@@ -202,6 +224,8 @@ func runRawEv(w *c11.World, e rawEv) rawStep {
 	st.ord = "-"
 	frame, buf := rawFrame(e)
 	srcMAC := append([]byte{}, frame[6:12]...) // the buffer is overwritten after the call
+	st.mac, st.dord = srcMAC, "-"
+	nic := w.S.NICInfo
 	fr, err := w.S.Parse(frame)
 	if err != nil || fr.PayloadID != packet.PayloadDHCP4 {
 		st.why = "Session.Parse does not hand the frame to the DHCPv4 processor"
@@ -232,12 +256,16 @@ func runRawEv(w *c11.World, e rawEv) rawStep {
 		time.Sleep(10 * time.Microsecond)
 	}
 	declines := 0
-	var reps, raws []string
+	var reps, raws, frames, dframes []string
 	st.ord = "-"
 	for _, f := range w.Conn.Take() {
 		if r, ok := c11.DecodeReply(f); ok {
 			st.replies = append(st.replies, r)
 			raws = append(raws, core.Hex(r.Raw))
+			frames = append(frames, core.Hex(f))
+			if bad := replyFrameCheck(nic.HostAddr4.MAC, c11.U32(nic.HostAddr4.IP), srcMAC, e.src, f); bad != "" {
+				st.dest = "reply frame: " + bad
+			}
 			if bad := wireCheck(e.p, r.Raw); bad != "" {
 				st.dest = "reply bytes: " + bad
 			}
@@ -251,11 +279,23 @@ func runRawEv(w *c11.World, e rawEv) rawStep {
 			reps = append(reps, s)
 			// destination (the model knows broadcast / unicast only): a unicast reply goes to the sender's MAC and IP
 			// source, a broadcast one is sent because the datagram had no source address
-			if !r.BCast && (!bytes.Equal(r.DstMAC, srcMAC) || r.DstIP != e.src) {
+			if st.dest == "" && !r.BCast && (!bytes.Equal(r.DstMAC, srcMAC) || r.DstIP != e.src) {
 				st.dest = fmt.Sprintf("unicast %s sent to %x / %d, the request came from %x / %d", s[:strings.Index(s, ":")], r.DstMAC, r.DstIP, srcMAC, e.src)
 			}
 		} else if isForgedDecline(f) {
 			declines++
+			if bad := udpFrameCheck(nic.HostAddr4.MAC, c11.U32(nic.HostAddr4.IP), nic.RouterAddr4.MAC, c11.U32(nic.RouterAddr4.IP), 68, 67, f); bad != "" {
+				st.dest = "forged DECLINE frame: " + bad
+			}
+			if e.dir == "s" { // the DECLINE that answers another server's OFFER is modelled byte for byte (declineFrame)
+				dframes = append(dframes, core.Hex(f))
+				if declines == 1 {
+					st.dord = core.Hex(optionOrder(f[42:]))
+				}
+				if bad := declineCheck(e.p, f[42:]); bad != "" {
+					st.dest = "forged DECLINE: " + bad
+				}
+			}
 		}
 	}
 	post, _, bad2 := w.Dump()
@@ -283,7 +323,14 @@ func runRawEv(w *c11.World, e rawEv) rawStep {
 	if len(raws) > 0 {
 		bs = strings.Join(raws, ",")
 	}
-	st.impl = fmt.Sprintf("%s %s|%s|%s decl=%s bytes=%s", res, pf[0], ls, rs, decl, bs)
+	fs, ds := "-", "-"
+	if len(frames) > 0 {
+		fs = strings.Join(frames, ",")
+	}
+	if len(dframes) > 0 {
+		ds = strings.Join(dframes, ",")
+	}
+	st.impl = fmt.Sprintf("%s %s|%s|%s decl=%s bytes=%s frames=%s dframes=%s", res, pf[0], ls, rs, decl, bs, fs, ds)
 	if bad != "" {
 		st.impl += " BAD:" + strings.ReplaceAll(bad, " ", "_")
 	}
@@ -333,7 +380,8 @@ func evalRaw(c *core.Ctx, f []string) *core.Case {
 		return &core.Case{Line: line, Impl: "err construct", Cmp: func(string, string) bool { return true },
 			Oracle: func() (string, string) { return why, "" }}
 	}
-	var impls, pres, done, ords []string
+	var impls, pres, done, ords, dords []string
+	nicTok := ""
 	dest := ""
 	cfg := ""
 	trivial := true
@@ -354,7 +402,10 @@ func evalRaw(c *core.Ctx, f []string) *core.Case {
 		impls = append(impls, st.impl)
 		pres = append(pres, st.pre)
 		ords = append(ords, st.ord)
+		dords = append(dords, st.dord)
+		e.mac = st.mac // the line names the Ethernet source the frame was received with
 		done = append(done, e.String())
+		nicTok = core.Hex(w.S.NICInfo.HostAddr4.MAC) + " " + core.Hex(w.S.NICInfo.RouterAddr4.MAC)
 		if len(e.p) >= 240 {
 			trivial = false
 		}
@@ -365,7 +416,7 @@ func evalRaw(c *core.Ctx, f []string) *core.Case {
 		}
 	}
 	rawStats(c, impls)
-	line := fmt.Sprintf("dhcp.raw %d %d %s %s @ %d %s %s # %s", cfgIdx, mode, f[3], strings.Join(done, ";"), c11.NowH*c11.Hour, cfg, strings.Join(pres, " "), strings.Join(ords, " "))
+	line := fmt.Sprintf("dhcp.raw %d %d %s %s @ %d %s %s # %s %% %s %s", cfgIdx, mode, f[3], strings.Join(done, ";"), c11.NowH*c11.Hour, cfg, strings.Join(pres, " "), strings.Join(ords, " "), nicTok, strings.Join(dords, " "))
 	return &core.Case{Line: line, Impl: strings.Join(impls, " / "), Trivial: trivial,
 		Oracle: func() (string, string) {
 			if broken != "" {
@@ -504,7 +555,7 @@ func (g *rawGen) clean() rawEv {
 		}
 		r.Shuffle(len(so), func(i, j int) { so[i], so[j] = so[j], so[i] })
 		yi := c11.U32(g.cfg.Home.Addr()) + 2 + uint32(r.Intn(12))
-		return rawEv{"s", c11.U32(g.cfg.Router), []int{0, 60, 1200}[r.Intn(3)], message(2, xid, 0, 0, yi, mac, so, true)}
+		return rawEv{"s", c11.U32(g.cfg.Router), []int{0, 60, 1200}[r.Intn(3)], message(2, xid, 0, 0, yi, mac, so, true), nil}
 	}
 	opts = append(opts, opt(53, mt))
 	if r.Intn(2) == 0 {
@@ -525,7 +576,7 @@ func (g *rawGen) clean() rawEv {
 	if r.Intn(6) == 0 { // near miss: one byte of the message off
 		p[[]int{4, 7, 12, 15, 28, 33, 240 + r.Intn(len(p)-240)}[r.Intn(7)]] ^= byte(1 + r.Intn(255))
 	}
-	return rawEv{"c", src, []int{0, 1, 9, 60, 1200, 1200}[r.Intn(6)], p}
+	return rawEv{"c", src, []int{0, 1, 9, 60, 1200, 1200}[r.Intn(6)], p, g.frameMAC()}
 }
 
 func (g *rawGen) noisy() rawEv {
@@ -661,7 +712,7 @@ func (g *rawGen) noisy() rawEv {
 		src = []uint32{0xffffffff, leased, offer, home + 1 + uint32(r.Intn(14))}[r.Intn(4)]
 	}
 	extra := []int{0, 0, 0, 1, 5, 9, 60, 300, 1200, 1200}[r.Intn(10)]
-	return rawEv{dir, src, extra, p}
+	return rawEv{dir, src, extra, p, g.frameMAC()}
 }
 
 func (g *rawGen) line(mode int, cfgIdx int, setup string, evs []rawEv) string {
@@ -677,8 +728,12 @@ func (g *rawGen) line(mode int, cfgIdx int, setup string, evs []rawEv) string {
 // leased address, DECLINE / RELEASE of it, …), mixed with malformed and foreign messages; then every line is
 // evaluated from scratch (fresh world) by Eval.
 func GenRaw(c *core.Ctx) {
+	GenDest(c) // frames.go: the destination rule, systematically
+	genRawN(c, c.Scale(1500, 40000))
+}
+
+func genRawN(c *core.Ctx, n int) {
 	r := c.Rnd
-	n := c.Scale(1500, 40000)
 	for i := 0; i < n; i++ {
 		if hangs >= 3 {
 			c.Drop("dhcp.raw-history", "skipped: hang budget of dhcp.proc spent")
